@@ -35,7 +35,11 @@ BAD = {"dateTime": ["not-a-date", "2020-01-01", "01/02/2020 10:00"], "datetime":
 # near misses: one step outside the lexical space of the type, where the conversion a validator is built on (int(), strptime, lower())
 # is more generous than the schema type
 NEAR = {"dateTime": ["2021-02-20T00:00:00.Z", "2020-01-01T00:00:00z", "2020-1-1T0:0:0Z", "", "2020-01-01t00:00:00Z", "2020-01-01 00:00:00Z",
-                     "2020-13-01T00:00:00Z", "2020-02-30T00:00:00Z", "2020-01-01T25:00:00Z", "20200101T000000Z"],
+                     "2020-13-01T00:00:00Z", "2020-02-30T00:00:00Z", "2020-01-01T25:00:00Z", "20200101T000000Z",
+                     # zone designators outside the lexical space (minutes above 59, offsets above 14:00, wrong shapes)
+                     "2020-01-01T00:00:00+05:75", "2020-01-01T00:00:00-00:60", "2020-01-01T00:00:00-13:60", "2020-01-01T00:00:00+14:01",
+                     "2020-01-01T00:00:00+24:00", "2020-01-01T00:00:00+5:00", "2020-01-01T00:00:00+0500", "2020-01-01T00:00:00Z+01:00",
+                     "2020-01-01T00:00:00+01", "2020-01-01T00:00:60Z" if False else "2020-01-01T00:00:00 Z"],
         "boolean": ["TRUE", "True", "False", "yes", "", "01", "t"],
         "integer": ["1_0", "\u0661\u0662", "", "1e3", "0x10", "1 0", "--1", "+"],
         "nonNegativeInteger": ["1_0", "\u0661\u0662", "", "-1_0"], "positiveInteger": ["1_0", "\u0661", "", "-3"], "PositiveInteger": ["1_0", "\u0661", ""],
